@@ -398,9 +398,26 @@ func runC01(src sim.Source, o Opts) *Result {
 
 // checkServeDirect: ServeHTTP runs the documented route's handler with the documented parameters (trailing-slash
 // options are off in C01, so a request without direct match must not reach a route handler).
+// drawAuthority makes one request in four an absolute-form one whose target names another authority than its Host
+// field: the host of some pattern of the pool, or a foreign one. Routing goes by the Host field.
+func (rr *routingRun) drawAuthority() {
+	if rr.src.Intn("absform", 4) != 3 {
+		return
+	}
+	rr.w.URLAuthority = "other.invalid:81"
+	if len(rr.pool) > 0 {
+		if h, _ := world.Instantiate(rr.src, rr.pool[rr.src.Intn("absformhost", len(rr.pool))]); h != "" {
+			rr.w.URLAuthority = h
+		}
+	}
+	rr.res.inc("requests_in_absolute_form_with_other_authority")
+}
+
 func (rr *routingRun) checkServeDirect(p world.Probe, where string) {
 	a, b, amb := rr.matchBoth(p, p.Path)
+	rr.drawAuthority()
 	obs := rr.w.Serve(p, "", "", nil)
+	rr.w.URLAuthority = ""
 	rr.res.Checks++
 	if obs.Panic != nil {
 		rr.res.fail(rr.f.prop+"/panic", "%s: ServeHTTP %v panicked: %v", where, p, obs.Panic)
